@@ -41,7 +41,12 @@ fn gen_layout(r: &mut Rng, absorbing: bool) -> Layout {
       let k = if r.below(12) == 0 { RARE_MODS[r.below(4)] } else if heavy && r.below(3) == 0 { mods[r.below(3)] } else { pool[r.below(pool.len())] };
       if !to.contains(&k) { to.push(k); }
     }
-    let repeat = match r.below(4) { 0 => Repeat::Disabled, 1 => Repeat::Special { keys: vec![OUTS[0]], delay_ms: 10, interval_ms: 5 }, _ => Repeat::Normal };
+    // Special repeats: usually one plain key; now and then up to three keys drawn from the trigger, the output, the modifiers and the plain outputs
+    let repeat = match r.below(4) { 0 => Repeat::Disabled, 1 => {
+        let mut keys = vec![OUTS[0]];
+        if r.below(2) == 0 { keys.clear(); let nk = 1 + r.below(3); let rp: Vec<KeyCode> = from.iter().chain(to.iter()).chain(mods.iter()).chain(OUTS.iter()).cloned().collect();
+                             while keys.len() < nk { let k = rp[r.below(rp.len())]; if !keys.contains(&k) { keys.push(k); } } }
+        Repeat::Special { keys, delay_ms: [10, 0, 1, 250][r.below(4)], interval_ms: [5, 1, 30][r.below(3)] } }, _ => Repeat::Normal };
     let mut absorbing_l = Vec::new();
     if absorbing && from.len() > 1 {
       if heavy { if r.below(3) != 0 { for k in &from[..from.len() - 1] { if r.below(3) != 0 { absorbing_l.push(*k); } } } }
@@ -77,11 +82,11 @@ pub fn gen_case(r: &mut Rng, with_release_all: bool) -> (Layout, Vec<Event>) {
   (layout, hist)
 }
 
-fn spec_fired(layout: &Layout, st: &State, k: KeyCode) -> Option<Mapping> {
+fn spec_fired(layout: &Layout, st: &State, considered: &Vec<KeyCode>, k: KeyCode) -> Option<Mapping> {
   let eff: Vec<KeyCode> = if st.absorbing_trigger == Some(k) { vec![] } else { st.mapped_absorbed_keys.iter().cloned().filter(|x| *x != k).collect() };
   let mut res = None;
   for m in &layout.mappings {
-    if *m.from.last().unwrap() == k && m.from.iter().all(|f| *f == k || (st.input_pressed_keys.contains(f) && !eff.contains(f))) { res = Some(m.clone()); }
+    if *m.from.last().unwrap() == k && m.from.iter().all(|f| *f == k || (considered.contains(f) && !eff.contains(f))) { res = Some(m.clone()); }
   }
   res
 }
@@ -101,6 +106,7 @@ pub fn check_history(prop: &str, layout: &Layout, hist: &Vec<Event>, trace: bool
   let mut dev: BTreeSet<KeyCode> = BTreeSet::new();
   let mut bad: Option<(usize, String)> = None;
   let mut absorbed_track: Vec<(KeyCode, KeyCode)> = Vec::new();
+  let mut cons: BTreeSet<KeyCode> = BTreeSet::new();
   let mut norepeat_since: bool = false;
   for (idx, e) in hist.iter().enumerate() {
     if bad.is_some() { break; }
@@ -112,13 +118,17 @@ pub fn check_history(prop: &str, layout: &Layout, hist: &Vec<Event>, trace: bool
         Released(x) => { if !dev.remove(x) { fail("C19", format!("release_all: redundant release {:?}", x)); } } } }
       if !dev.is_empty() { fail("C06", format!("after release_all the device still holds {:?}", dev)); fail("C12", format!("after release_all the device still holds {:?}", dev)); }
       if trace { println!("  release_all -> {:?}  device={:?}", evs, dev); }
-      absorbed_track.clear();
+      absorbed_track.clear(); cons.clear();
       continue;
     }
     let (press, k) = match e { Pressed(k) => (true, *k), Released(k) => (false, *k) };
     let before = clone_state(&m.state);
     let dev_before = dev.clone();
-    let acted = if press { !before.input_pressed_keys.contains(&k) } else { before.input_pressed_keys.contains(&k) };
+    // which keys the mapper considers held: without absorbing lists this is exactly "pressed and not released since the last release_all", tracked
+    // here from the history (`cons`); with absorbing lists the mapper may forget an absorbed key early, and its own list is read instead
+    let considered: Vec<KeyCode> = if has_abs { before.input_pressed_keys.clone() } else { cons.iter().cloned().collect() };
+    let acted = if press { !considered.contains(&k) } else { considered.contains(&k) };
+    if press { cons.insert(k); } else { cons.remove(&k); }
     if press { phys.insert(k); } else { phys.remove(&k); }
     let res = m.step(e.clone());
     let mut inst: Vec<(Event, BTreeSet<KeyCode>)> = Vec::new();
@@ -155,7 +165,7 @@ pub fn check_history(prop: &str, layout: &Layout, hist: &Vec<Event>, trace: bool
       let output = m.state.active_mappings.iter().any(|am| am.to.contains(x));
       if consumed && !output { fail("C02", format!("(d) {:?} is a trigger key of a mapping in effect, no mapping in effect outputs it, yet it is held on the device", x)); }
     }
-    let fired = if press && acted { spec_fired(layout, &before, k) } else { None };
+    let fired = if press && acted { spec_fired(layout, &before, &considered, k) } else { None };
     // C09
     let exp_rep = if !acted { ResultingRepeat::NoChange } else if let Some(fm) = &fired { match &fm.repeat { Repeat::Special { keys, delay_ms, interval_ms } => ResultingRepeat::Repeating { keys: keys.clone(), delay_ms: *delay_ms, interval_ms: *interval_ms }, _ => ResultingRepeat::Disabled } } else { ResultingRepeat::Disabled };
     if res.repeat != exp_rep { fail("C09", format!("repeat request {:?}, expected {:?}", res.repeat, exp_rep)); }
@@ -228,6 +238,14 @@ pub fn check_history(prop: &str, layout: &Layout, hist: &Vec<Event>, trace: bool
       }
     }
     // C08
+    if press && acted && c08_in_scope {
+      // "M counts again once it has been released and pressed again": which mapping should fire, with the absorbed keys tracked HERE (from the
+      // absorbing lists of the mappings that fired and the physical presses / releases since) instead of read from the mapper's own list
+      let eff: Vec<KeyCode> = absorbed_track.iter().filter(|(mk, trig)| *mk != k && *trig != k).map(|(mk, _)| *mk).collect();
+      let mut indep = None;
+      for mp in &layout.mappings { if *mp.from.last().unwrap() == k && mp.from.iter().all(|f| *f == k || (before.input_pressed_keys.contains(f) && !eff.contains(f))) { indep = Some(mp.clone()); } }
+      if indep != fired { fail("C08", format!("with the keys absorbed at this moment being {:?} (tracked from the history) the press of {:?} should fire {:?}; the mapper's own absorbed list {:?} makes it {:?}", eff, k, indep, before.mapped_absorbed_keys, fired)); }
+    }
     if press && acted {
       for (mk, trig) in absorbed_track.iter().filter(|_| c08_in_scope) {
         if k != *trig && k != *mk {
